@@ -58,8 +58,16 @@ KeysPrefix == <<[t |-> "Open", w |-> "w1", q |-> "p1"],
                 [t |-> "GenKey", w |-> "w1", s |-> "s1"],
                 [t |-> "Export", w |-> "w1", s |-> "s1", p |-> "q1", f |-> "f1"],
                 [t |-> "Open", w |-> "w2", q |-> "p2"]>>
+\* fault focus, second start: a wallet that already holds two keystores (the calls that span several keystores are where a
+\* fault can leave a partial effect)
+TwoKsPrefix == <<[t |-> "Open", w |-> "w1", q |-> "p1"],
+                 [t |-> "NewKs", w |-> "w1", p |-> "q1", s |-> "s1", r |-> "r1"],
+                 [t |-> "NewKs", w |-> "w1", p |-> "q1", s |-> "s2", r |-> ""],
+                 [t |-> "GenKey", w |-> "w1", s |-> "s2"]>>
 RECURSIVE ApplyAll(_, _)
 ApplyAll(st, ops) == IF ops = <<>> THEN st ELSE ApplyAll(Apply(st, Head(ops), "none"), Tail(ops))
+GInitTwoKs == /\ S = ApplyAll(InitS, TwoKsPrefix)
+              /\ hist = [i \in 1..Len(TwoKsPrefix) |-> TwoKsPrefix[i] @@ [fault |-> "none", k |-> 1, c |-> 1]]
 GInitKeys == /\ S = ApplyAll(InitS, KeysPrefix)
              /\ hist = [i \in 1..Len(KeysPrefix) |-> KeysPrefix[i] @@ [fault |-> "none", k |-> 1, c |-> 1]]
 
